@@ -306,9 +306,10 @@ def _mutable_after_init(ctx: Ctx, cls: Class) -> Set[str]:
                 continue
             for n in own_nodes(g.node):
                 if isinstance(n, (ast.Assign, ast.AnnAssign, ast.AugAssign)):
-                    for t in n.targets if isinstance(n, ast.Assign) else [n.target]:
-                        if isinstance(t, ast.Attribute) and src(t.value) == "self":
-                            out.add(t.attr)
+                    for t0 in n.targets if isinstance(n, ast.Assign) else [n.target]:
+                        for t in (t0.elts if isinstance(t0, (ast.Tuple, ast.List)) else [t0]):  # `self._a, self._b = pair`
+                            if isinstance(t, ast.Attribute) and src(t.value) == "self":
+                                out.add(t.attr)
     return out
 
 
@@ -320,9 +321,10 @@ def _writers_of(ctx: Ctx, cls: Class, attr: str) -> List[str]:
                 continue
             for n in own_nodes(g.node):
                 if isinstance(n, (ast.Assign, ast.AnnAssign, ast.AugAssign)):
-                    for t in n.targets if isinstance(n, ast.Assign) else [n.target]:
-                        if isinstance(t, ast.Attribute) and src(t.value) == "self" and t.attr == attr:
-                            out.append(g.qualname)
+                    for t0 in n.targets if isinstance(n, ast.Assign) else [n.target]:
+                        for t in (t0.elts if isinstance(t0, (ast.Tuple, ast.List)) else [t0]):
+                            if isinstance(t, ast.Attribute) and src(t.value) == "self" and t.attr == attr:
+                                out.append(g.qualname)
     return out
 
 
